@@ -34,6 +34,9 @@ type c19Case struct {
 	Naming bool `json:"naming,omitempty"`
 	// Funcs: length of the call chain (0 = 15..30).
 	Funcs int `json:"funcs,omitempty"`
+	// Small: a short chain of plain functions whose every argument fits in 32 bits (no word of the whole traceback
+	// says "64-bit process").
+	Small bool `json:"small,omitempty"`
 }
 
 type builtProg struct {
@@ -59,8 +62,11 @@ func buildAndCrash(c *c19Case) (*builtProg, error) {
 	if c.Funcs != 0 {
 		nf = c.Funcs
 	}
-	p := gen.GenProgFiles(rr, nf, (c.Mismatch == "" && c.Idx%2 == 1) || c.Mismatch == "second-file-syntax")
-	dir := filepath.Join(os.Getenv("VERIF_WORK"), fmt.Sprintf("prog-%s-%d-%s-%v-%d", c.Toolchain, c.Idx, c.Mismatch, c.Naming, c.Funcs))
+	if c.Small {
+		nf = 2 + rr.Intn(5)
+	}
+	p := gen.GenProgOpt(rr, nf, (c.Mismatch == "" && c.Idx%2 == 1) || c.Mismatch == "second-file-syntax", c.Small)
+	dir := filepath.Join(os.Getenv("VERIF_WORK"), fmt.Sprintf("prog-%s-%d-%s-%v-%d-%v", c.Toolchain, c.Idx, c.Mismatch, c.Naming, c.Funcs, c.Small))
 	_ = os.RemoveAll(dir)
 	if err := os.MkdirAll(dir, 0o755); err != nil {
 		return nil, err
@@ -400,7 +406,7 @@ func c19Eval(r *core.Run, c *c19Case) {
 }
 
 func runC19(r *core.Run) {
-	r.Rule("generated Go programs: one chain of 15..30 functions and pointer-receiver methods, 1..6 parameters each drawn from bool, int/int8..64, uint/uint8..64, uintptr, byte, rune, float32/64, string, slices, pointers, map, chan, func (<= 10 machine words, some deliberately more; consecutive same-type parameters sometimes grouped), every call with literal boundary values; compiled with -gcflags '-N -l', crashed, the REAL traceback parsed with source analysis. " +
+	r.Rule("generated Go programs: one chain of 15..30 functions and pointer-receiver methods, 1..6 parameters each drawn from bool, int/int8..64, uint/uint8..64, uintptr, byte, rune, float32/64, string, slices, pointers, map, chan, func (<= 10 machine words, some deliberately more; consecutive same-type parameters sometimes grouped), every call with literal boundary values; plus short chains of plain functions whose every argument fits in 32 bits (values around 2^31 and 2^32, no pointer anywhere in the traceback); compiled with -gcflags '-N -l', crashed, the REAL traceback parsed with source analysis. " +
 		"Each rendered argument is compared with the literal the program passed; raw values and every other field must equal the parse without source analysis; mismatching source trees (deleted, truncated, shifted, different arity, syntax error, directory, dangling symlink, empty, unrelated) must neither crash nor change a frame, and must not produce a rendering when the file is missing/unparsable. distinct by (seed, index, toolchain); non-trivial = every program (15+ frames)")
 	r.Assume("the installed toolchains' traceback encoding of arguments with -N -l (values beyond the 10-word limit are 'not shown')")
 	tools := []string{"go"}
@@ -415,6 +421,9 @@ func runC19(r *core.Run) {
 	for _, t := range tools {
 		for i := 0; i < np; i++ {
 			jobs = append(jobs, c19Case{Seed: r.Seed, Idx: i, Toolchain: t, Naming: i%2 == 1})
+		}
+		for i := 0; i < np/5; i++ {
+			jobs = append(jobs, c19Case{Seed: r.Seed, Idx: 5000 + i, Toolchain: t, Naming: i%2 == 1, Small: true})
 		}
 		for i := 0; i < nm/len(tools); i++ {
 			jobs = append(jobs, c19Case{Seed: r.Seed, Idx: 1000 + i, Toolchain: t, Mismatch: mism[i%len(mism)]})
